@@ -21,7 +21,7 @@ P = {
          "DESIGN.md §5 C02"),
  "C03": (True, "E1-history", "exploration",
          "runtime monitor: rule-derived expectations + all-permutations order-independence over a causal scenario cube",
-         "Scenarios (common synced prefix, one of 17 concurrent suffix forms per replica (incl. re-asserting the current value, setting the empty string, a task created independently on several replicas and deleted by one), timestamps incl. ties, optional causally-later change) are run under every permutation of the sync order: pairs exhaustively, triples with a mandatory same-value stratum and seeded random; final states must equal the expectation derived from the documented rules alone (simple forms), be identical across orders (all forms), keep every unconflicted change, and let a causally later change override regardless of timestamp.",
+         "Scenarios (common synced prefix, one of 17 concurrent suffix forms per replica (incl. re-asserting the current value, setting the empty string, a task created independently on several replicas and deleted by one), timestamps incl. ties, optional causally-later change) are run under every permutation of the sync order: pairs exhaustively, triples with a mandatory same-value stratum and seeded random; a free-form stratum gives each of 2-3 replicas 1-3 successive updates with values from a shared alphabet (one replica's change may coincide with an earlier change of another) and timestamps that tie or run backwards inside one replica's own sequence; final states must equal the expectation derived from the documented rules alone (simple forms), be identical across orders (all forms), keep every unconflicted change, and let a causally later change override regardless of timestamp.",
          "For equal timestamps with different values only 'one tied value survives, the same in every order' is demanded. Sync order = one permutation repeated to quiescence.",
          "DESIGN.md §5 C03"),
  "C04": (True, "E3-fault", "fault_enumeration",
@@ -31,12 +31,12 @@ P = {
          "DESIGN.md §5 C04"),
  "C05": (True, "E1-history", "exploration",
          "runtime monitor: one-at-a-time reference model + error injection at every storage call of a commit",
-         "Every batch of <=3 operations over a 13-operation alphabet on 4 prior states (exhaustively on in-memory storage; SQLite sampled in quick, full in thorough) plus random batches up to 30 operations (incl. status changes that move tasks into the working set) is committed through the real Replica and compared with the documented one-at-a-time semantics, the expected unsynced list, the undo/operation counters and the replica invariant; an error injected at each storage call of the commit must leave no trace.",
+         "Every batch of <=3 operations over a 13-operation alphabet on 4 prior states (exhaustively on in-memory storage; SQLite sampled in quick, full in thorough) plus random batches up to 30 operations (incl. status changes that move tasks into the working set) is committed through the real Replica and compared with the documented one-at-a-time semantics, the expected unsynced list, the undo/operation counters and the replica invariant; an error injected at each storage call of the commit must leave no trace. Recorded old values in the batches are right, stale, or equal to the new value (they are for undo only and must not change the effect).",
          "Atomicity fault model is 'a storage call returns an error' (process death is C06). Reference semantics written from docs/src/storage.md.",
          "DESIGN.md §5 C05"),
  "C06": (True, "E3-fault", "fault_enumeration",
          "crash injection (error / dropped future / child-process abort() at every storage call, abort() after commit, SIGKILL at random instants) + full-dump comparison through a fresh handle",
-         "Commit, undo, both rebuild modes, sync and the first sync of a fresh replica (snapshot + later versions from an HTTP reference server) on a prepared SQLite replica are interrupted at every storage call index in-process and by abort() in a child process (and right after each commit returned); the directory is reopened through a fresh handle and its dump (tasks, unsynced operations, base version, working set, per-task logs) must equal the before-state, the after-state of a fault-free run on a byte copy, or (rebuild being a documented separate step) the after-state's tasks with the before-state's working set — nothing derived from the implementation's own commit calls. A second workload SIGKILLs a committing child at random instants and compares with the acknowledged commits.",
+         "Commit, undo, both rebuild modes, sync and the first sync of a fresh replica (snapshot + later versions from an HTTP reference server) on a prepared SQLite replica are interrupted at every storage call index in-process and by abort() in a child process (and right after each commit returned); the directory is reopened through a fresh handle and its dump (tasks, unsynced operations, base version, working set, per-task logs) must equal the before-state, the after-state of a fault-free run on a byte copy, or (rebuild being a documented separate step) the after-state's tasks with the before-state's working set — nothing derived from the implementation's own commit calls. A second workload SIGKILLs a committing child at random instants and compares with the acknowledged commits. Stratum failed-undo: an undo whose list contains an operation that cannot be reversed, after ones that can, must leave exactly the before-state unless it reports success.",
          "Process death only (no power loss / torn pages). Version ids chosen by the on-disk local server are normalised.",
          "DESIGN.md §5 C06"),
  "C16": (True, "E4-differential", "exploration",
@@ -56,7 +56,7 @@ P = {
          "DESIGN.md §5 C12"),
  "C13": (True, "E6-adversarial", "exploration",
          "runtime monitor against an independent pure-Python AEAD (RFC 8439 + hashlib PBKDF2): exhaustive single-byte tamper / truncation sweeps through the seal hook, and inspection + tampering of what each remote backend actually stores",
-         "Every sealed value produced through the hook is checked for the documented form (format byte 1, never-repeated nonce), opened by the independent reference to the exact plaintext, and values sealed by the reference open in the crate; every single-byte change (4 patterns per position), every truncation, an extension and every secret/salt/version-id mismatch must be rejected. What the HTTP client, the object-store server and the git backend really store (request bodies, objects, files and git objects) must open in the reference with the documented salt and AAD, contain no planted task content, and flipping / truncating / swapping / relabelling it must make the Server call fail rather than return data. Two object-store clients racing to create the salt are enumerated under every schedule and must afterwards read each other's data.",
+         "Every sealed value produced through the hook is checked for the documented form (format byte 1, never-repeated nonce), opened by the independent reference to the exact plaintext, and values sealed by the reference open in the crate; every single-byte change (4 patterns per position), every truncation, an extension and every secret/salt/version-id mismatch must be rejected. What the HTTP client, the object-store server and the git backend really store (request bodies, objects, files and git objects) must open in the reference with the documented salt and AAD, contain no planted task content, and flipping / truncating / swapping / relabelling it must make the Server call fail rather than return data. Two object-store clients racing to create the salt are enumerated under every schedule and must afterwards read each other's data. Secrets include leading / trailing whitespace; a key derived from the stripped secret must not open the value.",
          "Oracle = tools/sealed_ref.py, self-tested on RFC vectors at each invocation. Nonce randomness is observed only as 'never repeated, not a counter'. Object store = hook's in-memory Service; HTTP = harness reference server.",
          "DESIGN.md §5 C13"),
  "C14": (True, "E1-history", "exploration",
@@ -76,12 +76,12 @@ P = {
          "DESIGN.md §5 C08"),
  "C11": (True, "E3-fault", "fault_enumeration",
          "fault injection at every internal step of add-version per backend (hook failpoints, per-request object-store faults, a git_path wrapper script failing or killing at each git invocation) followed by a continued history under protocol, chain and convergence oracles",
-         "One replica's sync is interrupted inside the backend: local server — 3 failpoints x {error, process abort in a child}; object store — every request of the sync x {fail before, perform then fail, drop the client}, once on a young chain and once on an aged one (expired versions, superseded snapshot) where the sync's add_version runs the deleting cleanup and the audit goes through a brand-new replica; git local-only and git with a bare remote + 2 clones — every git invocation x {fail before, run then fail, kill process before, run then kill} plus remote-unreachable-from-invocation-k (quick tier: a seeded sample for the remote configuration). Then the backend is reopened, the interrupted replica must sync within two attempts, another replica edits and syncs, and a fresh handle audits: one chain holding every version a client was told was accepted, complete versions only, replicas equal its replay, protocol answers correct.",
+         "One replica's sync is interrupted inside the backend: local server — 3 failpoints x {error, process abort in a child}; object store — every request of the sync x {fail before, perform then fail, drop the client}, once on a young chain and once on an aged one (expired versions, superseded snapshot) where the sync's add_version runs the deleting cleanup and the audit goes through a brand-new replica; git local-only and git with a bare remote + 2 clones — every git invocation x {fail before, run then fail, kill process before, run then kill} plus remote-unreachable-from-invocation-k (quick tier: a seeded sample for the remote configuration). Then the backend is reopened, the interrupted replica must sync within two attempts, another replica edits and syncs, and a fresh handle audits: one chain holding every version a client was told was accepted, complete versions only, replicas equal its replay, protocol answers correct. Every fault point is continued in both orders (the interrupted replica retries first / the other replica edits and synchronizes before the interrupted handle is reopened). Aged git strata: three versions and a snapshot committed 400 days ago (commit dates set through the wrapper), the target sync is asked for a snapshot, so the faults also hit add_snapshot and the cleanup that removes the expired version files (git rm / commit / push).",
          "Git faults are injected without touching the repo: ServerConfig::Git.git_path points at tools/gitwrap.sh. Liveness in bounded form (2 attempts). Single fault per history.",
          "DESIGN.md §5 C11"),
  "C09": (True, "E2-schedule", "exploration",
          "runtime monitor under a deterministic scheduler at single object-store-request / list-page granularity + offline history checker over client call/return events and the store's request log",
-         "Adders with retry, chain-walking readers and snapshot writers run against the real CloudServer over the hook's in-memory object store; every get/put/del/compare-and-swap and every list page is a scheduling point. Two adders (and adder + snapshot writer) are enumerated exhaustively, two adders + reader by budgeted DFS, 3-4 clients by seeded random schedules. The checker asserts: at most one accepted child per parent, every accepted version on the final chain with its bytes, nothing off-chain ever served, rejections name a version that was latest during the call, 'latest' is the chain tail.",
+         "Adders with retry, chain-walking readers and snapshot writers run against the real CloudServer over the hook's in-memory object store; every get/put/del/compare-and-swap and every list page is a scheduling point. Two adders (and adder + snapshot writer) are enumerated exhaustively, two adders + reader by budgeted DFS, 3-4 clients by seeded random schedules. The checker asserts: at most one accepted child per parent, every accepted version on the final chain with its bytes, nothing off-chain ever served, rejections name a version that was latest during the call, 'latest' is the chain tail. A client whose add_version was rejected, pulled again and comes back with the same parent is reported (the rejection named a version that could not be reached from the parent).",
          "In-memory Service (atomic requests, pages read from current contents); AWS/GCP adapters' own compare-and-swap is out of reach offline. Cleanup draw pinned to 255 here (C10 owns cleanup).",
          "DESIGN.md §5 C09"),
  "C10": (True, "E2-schedule", "exploration",
@@ -101,12 +101,12 @@ P = {
          "DESIGN.md §5 C18"),
  "C19": (True, "E1-history", "exploration",
          "runtime monitor: documented-effect model of every mutator + old-value shadow replay + independent synthetic-tag/dependency-map computation",
-         "Random sequences over all public Task and TaskData mutators (incl. reserved names, synthetic and invalid tags, all UDA API generations) across commit/reload cycles; after every call the Task the caller holds must equal the documented effect, every recorded Update's old value must equal the shadow map, commits must store exactly the held task, the end/modified rules must hold, synthetic tags / dependency map must equal an independent computation from the stored data, and the cached dependency map must equal a forced rebuild after every commit (incl. purges).",
+         "Random sequences over all public Task and TaskData mutators (incl. reserved names, synthetic and invalid tags, all UDA API generations) across commit/reload cycles; after every call the Task the caller holds must equal the documented effect, every recorded Update's old value must equal the shadow map, commits must store exactly the held task, the end/modified rules must hold, synthetic tags / dependency map must equal an independent computation from the stored data, and the cached dependency map must equal a forced rebuild after every commit (incl. purges). Low-level sessions also record an idempotent TaskData::create for the existing task between updates.",
          "Session = lifetime of one Task value; dependency map compared after dependency_map(true) and a non-renumbering rebuild; clock-derived values judged by a wall-clock window.",
          "DESIGN.md §5 C19"),
  "C20": (True, "E1-history", "exploration",
          "runtime monitor: independent expiry predicate over a complete status x modified dictionary; multi-replica purge histories with concurrent edits",
-         "expire_tasks is judged by an independent predicate on every status x boundary `modified` value (both storages) and in multi-replica histories where other replicas edit the tasks concurrently: the purge must be recorded and sent as plain Delete operations and the task must be gone on every replica after syncing in a random order — also when expiration empties a replica completely and the server holds a snapshot.",
+         "expire_tasks is judged by an independent predicate on every status x boundary `modified` value (both storages) and in multi-replica histories where other replicas edit the tasks concurrently: the purge must be recorded and sent as plain Delete operations and the task must be gone on every replica after syncing in a random order — also when expiration empties a replica completely and the server holds a snapshot. The dictionary is crossed with the other time-valued properties (end, entry, due, wait, start, scheduled: absent / long past / recent), which must not influence expiry.",
          "No clock hook: tasks inside the window swept by the clock during the call are excluded (boundary cases sit ±5 s outside it).",
          "DESIGN.md §5 C20"),
 }
